@@ -450,6 +450,66 @@ def stale_loop_variable_lint(repo, rep, rule, modules, report=True):
     return n, hits
 
 
+
+_CONSUMER_DEREF_EXEMPT = {
+    ("graph_optimiser_util", "_avoid_nhcwb16_for_memory_only"): "only called by check_format_restrictions after its `any(cons is None ..)` early return",
+    ("weight_compressor", "_prepare_scale_and_bias"): "the tensor is the bias constant of NPU operators; the None marker is only added to subgraph output tensors",
+}
+
+
+def consumer_deref_lint(repo, rep, rule, report=True):
+    """A tensor's consumer list holds None for 'consumed outside the graph' (a subgraph output). A loop or comprehension over
+    `<t>.consumer_list` / `<t>.consumers()` that dereferences its element (`c.op_index`, `c.run_on_npu` ...) needs a None test on that
+    element: `c is (not) None`, `c and ..`, an `if c` filter, or an earlier `return` under `any(c is None for c in <the same list>)`."""
+    import ast
+    import re as _re
+
+    from ..exprnorm import norm
+
+    n = 0
+    hits = []
+    for m in repo.core_modules():
+        for q, fn in m.functions.items():
+            early = set()
+            for i in ast.walk(fn):
+                if isinstance(i, ast.If) and i.body and isinstance(i.body[-1], ast.Return):
+                    for g in ast.walk(i.test):
+                        if isinstance(g, ast.GeneratorExp) and " is None" in str(norm(g.elt)):
+                            early.add(str(norm(g.generators[0].iter)))
+            for node in ast.walk(fn):
+                gens = []
+                if isinstance(node, ast.For) and isinstance(node.target, ast.Name):
+                    gens = [(node.target.id, node.iter, list(node.body), [])]
+                elif isinstance(node, (ast.ListComp, ast.SetComp, ast.GeneratorExp)):
+                    for g in node.generators:
+                        if isinstance(g.target, ast.Name):
+                            gens.append((g.target.id, g.iter, [node.elt] + list(g.ifs), list(g.ifs)))
+                for v, it, body, ifs in gens:
+                    t = str(norm(it))
+                    if not (t.endswith(".consumer_list") or t.endswith(".consumers()") or ".consumer_list" in t):
+                        continue
+                    n += 1
+                    deref = [x for b in body for x in ast.walk(b) if isinstance(x, ast.Attribute) and isinstance(x.value, ast.Name) and x.value.id == v]
+                    if not deref:
+                        continue
+                    txt = " ".join(str(norm(b)) for b in body)
+                    guarded = bool(_re.search(rf"\b{v} is not None\b|\b{v} is None\b|\bnot {v}\b|\b{v} and \b|\bif {v}\b", txt)) or any(str(norm(i_)) == v for i_ in ifs) or t in early
+                    if not guarded:
+                        hits.append((m.name, q, v, t, deref[0].attr))
+    if report:
+        for mname, q, v, t, a in list(hits):
+            if (mname, q) in _CONSUMER_DEREF_EXEMPT:
+                rep.ok(rule, f"ethosu/vela/{mname}.py:{q}", f"`{v}.{a}` for `{v}` in `{t}`", "reviewed: " + _CONSUMER_DEREF_EXEMPT[(mname, q)])
+                hits.remove((mname, q, v, t, a))
+                continue
+            rep.bad(rule, f"ethosu/vela/{mname}.py:{q}", "elements of a consumer list are dereferenced only under a None test",
+                    f"`{v}.{a}` for `{v}` in `{t}` without a None test: the list holds None for a subgraph output (an int8 QUANTIZE of a constant that is also a subgraph output: "
+                    "AttributeError 'NoneType' object has no attribute 'op_index')")
+        if not hits:
+            rep.ok(rule, "ethosu/vela", f"{n} iterations over consumer lists", "every dereference is under a None test")
+    return n, hits
+
+
 def round_half_away(repo, rep, rule):
     """numeric_util.round_away_zero is the single rounding primitive behind quantise_scale, the LUT generators and
     quantise_float32. Its rounding mode is a property of the function's shape: it touches its argument only through
